@@ -13,6 +13,11 @@ CLAIMED["C06"] = dict(
    text="Exploration: corpus texts, a seeded 12% (quick) / complete (thorough) single-token mutation neighbourhood, token soups and UTF-8 noise go through compile, format (3 option sets), error rendering and a sandboxed 50 ms run; every callable of the live prelude is applied to ALL argument tuples of arity <= 2 from a 55-value boundary pool (fresh values per call) plus a seeded arity-3 sample. Any panic, abort or unexplained hang is a violation unless it matches a listed known finding by panic site. Cannot show absence of panics beyond the explored inputs.",
    note="Overflow checks are ON in the engine build (as in the repository's own test profile): arithmetic overflow panics count. Allocation failure / capacity overflow / native stack overflow and hangs of natively spinning calls are counted as resource events, not judged. File/process functions are removed from the prelude.",
    design="§4 C06")
+CLAIMED["C01"] = dict(
+   technique="differential property-based testing against an independent reference interpreter (model-based), proptest-driven grammar generation with library + AST delta shrinking, bounded-exhaustive operator trees, metamorphic context variants",
+   text="Exploration: 12k (quick) / 150k (thorough) generated core programs, each run at top level, inside a function, inside a nested closure and after 5/40/120(/200) extra live locals, plus five re-embeddings of the observed expression (call argument, list element, map value, interpolation, condition), are compared (stdout, rendered result, Ok/Err class) with a tree-walking reference interpreter written from the language guide; operator trees of depth 2 over all 14 binary operators x unary wrappers x 9 operand kinds are enumerated (quick: 1 in 8, thorough: all 254k). Sampled above those bounds; no absence proof.",
+   note="Trusts the reference model M (written from the guide, calibrated on documented examples) and Rust's f64 arithmetic/formatting. Cases where the guide is silent are dropped as 'unjudged' (counted). Known shape F25 is excluded by construction.",
+   design="§4 C01")
 NOT_YET = {}
 props=[json.loads(l) for l in open('/verif/properties.jsonl')]
 checks=[]; na=[]
